@@ -105,6 +105,13 @@ def _check(ctx: Ctx) -> None:
             pp = parse_parts(t, {})
             if pp is None:
                 raise AnalysisError(f"emitted token `{show(t)}` outside the grammar")
+            if pp and pp[0] == "TRAILING-SEPARATOR":
+                bad_shapes += 1
+                ctx.violation("TPL1", f"[{label}] emitted `{show(t)}`", function=fe.qualname,
+                              construct=f"emitted token shape `{show(t)}` ends with a separator",
+                              message=f"with {label} tokenise emits a token with a trailing '-' (not a vocabulary member, and detokenise splits off an empty part)",
+                              file=fe.file, node=node)
+                continue
             if pp not in vocab:
                 bad_shapes += 1
                 ctx.violation("TPL1", f"[{label}] emitted `{show(t)}`", function=fe.qualname,
@@ -141,6 +148,13 @@ def _check(ctx: Ctx) -> None:
 
     droles = ctx.extra["clock_roles"]["detokenise"]
     dsub = {a: Sym.atom(r) for r, a in droles.items()}
+
+    for pr in CLOCK_PREFIXES:
+        if pr not in dmap:
+            ctx.violation("CLK2", f"detokenise handles {pr}", function=fd.qualname, construct=f"no detokenise branch for prefix {pr}",
+                          message=f"{pr} tokens emitted by tokenise would not be applied by detokenise", file=fd.file, node=fd.node)
+    if any(pr not in dmap for pr in CLOCK_PREFIXES):
+        return
 
     def d_effect(pr):
         body = dmap[pr]
